@@ -22,7 +22,11 @@ def run(ctx):
     ctx.rule("R18-4", "a LIKE pattern with an ESCAPE character escapes that character itself in the bound value "
                       "(otherwise a name containing it matches nothing and the listing silently loses rows)")
     ctx.rule("R18-3", "history delete formats a usize row id")
+    ctx.rule("R18-5", "recording does not fail silently: every Err path of the INSERT in add_raw reaches a message on "
+                      "stderr, and the connection keeps rusqlite's default busy timeout (no busy_timeout / busy_handler "
+                      "call shortens the wait behind another shell's write lock)")
     for crate in ctx.crates:
+        insert_failure_rule(ctx, crate)
         n = sql_rule(ctx, crate)
         if crate.kind == "bin":
             ctx.floor("R18-1", crate, "SQL sinks", n, FLOOR_SINKS)
@@ -289,3 +293,35 @@ def like_escape_rule(ctx, crate):
                    detail=None if ok else "a directory / pattern containing %r makes the LIKE match nothing: rows silently vanish from the listing" % ch)
     if n == 0:
         ctx.ob("R18-4", "history", "no LIKE ... ESCAPE clause is used", True, crate=crate.kind, nontrivial=False)
+
+
+def insert_failure_rule(ctx, crate):
+    b = crate.fn("history::add_raw")
+    if not ctx.require(b is not None, "R18-5", "R18-5|anchor", "history::add_raw not found"):
+        return
+    ctx.analysed(b)
+    ex = [bb for bb, t, c in b.calls() if last_seg(c) == "execute" and "usqlite" in c]
+    if not ctx.require(len(ex) == 1, "R18-5", "R18-5|%s|execute" % b.path, "expected one Connection::execute in add_raw", b.path):
+        return
+    res = strip_sites(b.call_expr(ex[0]))
+    stderr_blocks = {bb for bb, t, c in b.calls() if mir.short(c) in ("std::io::stderr", "std::io::Stderr::write_fmt") or
+                     last_seg(c) in ("eprintln", "_eprint")}
+    err_targets = []
+    for bb in sorted(b.reachable):
+        for tgt, atom, val in b.switch_edges(bb):
+            if atom[0] == "discr" and strip_sites(atom[1]) == res and val == "Err":
+                err_targets.append(tgt)
+    rets = {bb for bb in b.reachable if b.term(bb)["k"] == "return"}
+    ok = bool(err_targets) and bool(stderr_blocks) and all(flow.must_pass(b, t_, stderr_blocks, rets) for t_ in err_targets)
+    ctx.ob("R18-5", b.path, "every failure of the INSERT is reported on stderr", ok,
+           key="R18-5|%s|silent-failure" % b.path, where=b.loc(ex[0]), crate=crate.kind,
+           detail=None if ok else "some Err path returns without writing to stderr: the line is lost (it stays only in this "
+           "shell's in-memory history) and nothing tells the user")
+    tuned = [(bb, last_seg(c)) for p2, b2 in crate.bodies.items() if p2.startswith("history::") for bb, t, c in b2.calls()
+             if last_seg(c) in ("busy_timeout", "busy_handler") or (last_seg(c) in ("pragma_update", "execute_batch") and any(
+                 "busy_timeout" in (mir.const_str(x) or "") for a in b2.call_args(bb) for x in mir.subexprs(strip_sites(a))
+                 if x[0] == "const"))]
+    ctx.ob("R18-5", "history", "the history connections keep the default busy timeout", not tuned,
+           key="R18-5|history|busy-timeout", crate=crate.kind,
+           detail=None if not tuned else "%s: while another shell holds the write lock longer than the new timeout the "
+           "INSERT fails with SQLITE_BUSY" % tuned[0][1])
